@@ -265,8 +265,18 @@ impl Signature {
         };
 
         // Generate hashes for JA4_b and JA4_c (first 12 characters of SHA256)
-        let ja4_b_hash = hash12(&ja4_b_raw);
-        let ja4_c_hash = hash12(&ja4_c_raw);
+        // JA4: the hash of a part whose list is empty is twelve zeros, not sha256("")
+        const EMPTY_LIST_HASH: &str = "000000000000";
+        let ja4_b_hash = if ciphers_for_b.is_empty() {
+            EMPTY_LIST_HASH.to_string()
+        } else {
+            hash12(&ja4_b_raw)
+        };
+        let ja4_c_hash = if extensions_for_c.is_empty() {
+            EMPTY_LIST_HASH.to_string()
+        } else {
+            hash12(&ja4_c_raw)
+        };
 
         // JA4 hashed: ja4_a + "_" + ja4_b_hash + "_" + ja4_c_hash
         let ja4_hashed = format!("{ja4_a}_{ja4_b_hash}_{ja4_c_hash}");
